@@ -33,9 +33,38 @@ package target
 //@ iface (datastore/target/netconf.Driver).IsAlive
 //@   noeffect
 
-// rendering the change never talks to the device
+// rendering the change never talks to the device; which rendering is requested is recorded on the ghost trace
+//@ event Rendered(string, Bool)
+//@ event GnmiSet(Int, Int)
 //@ iface TargetSource.ToXML
 //@   noeffect
+//@ iface TargetSource.ToJson
+//@   params onlyNewOrUpdated
+//@   noeffect
+//@   emits Rendered("json", onlyNewOrUpdated)
+//@ iface TargetSource.ToJsonIETF
+//@   params onlyNewOrUpdated
+//@   noeffect
+//@   emits Rendered("json_ietf", onlyNewOrUpdated)
+//@ iface TargetSource.ToProtoUpdates
+//@   params ctx onlyNewOrUpdated
+//@   noeffect
+//@   emits Rendered("proto", onlyNewOrUpdated)
+//@   ensures forall(i, 0, len(r0), r0[i] != nil)
+//@ iface TargetSource.ToProtoDeletes
+//@   params ctx
+//@   noeffect
+//@   emits Rendered("deletes", true)
+//@   ensures forall(i, 0, len(r0), r0[i] != nil)
+
+// assumed: the gNMI client library sends one SetRequest per call
+//@ extern (*github.com/openconfig/gnmic/pkg/target.Target).Set
+//@   params ctx req
+//@   noeffect
+//@   emits GnmiSet(len(req.Update), len(req.Delete))
+//@   ensures r1 == nil ==> r0 != nil
+//@ extern strings.ToLower
+//@   pure
 
 //@ extern (*github.com/beevik/etree.Document).WriteToString
 //@   noeffect
@@ -107,3 +136,30 @@ package target
 //@   ensures success_candidate: ds == "candidate" && r1 == nil && ntrace() > n0 ==>
 //@            ntrace() == n0 + 2 && emitted(n0+1) == Commit
 //@   ensures success_running: ds == "running" && r1 == nil && ntrace() > n0 ==> ntrace() == n0 + 1
+
+// ---------------------------------------------------------------------------
+// C10 / C09: the gNMI target renders the change in the configured encoding and forwards all of it, once
+
+//@ func (*gnmiTarget).Set
+//@   props C10 C09
+//@   requires t == nil || (t.cfg != nil && t.cfg.GnmiOptions != nil && t.target != nil)
+//@   requires source != nil
+//@   nosafety the claims are about which rendering is requested and that everything obtained is forwarded (no-panic is property C20)
+//@   let n0 = ntrace()
+//@   let enc = strings.ToLower(t.cfg.GnmiOptions.Encoding)
+//@   ensures not_connected_sends_nothing: t == nil ==> r1 != nil && ntrace() == n0
+//@   ensures json_selection [C10]: t != nil && enc == "json" && ntrace() > n0 ==> emitted(n0) == Rendered("json", true) &&
+//@            forall(i, n0, ntrace(), emitted(i) != Rendered("proto", true) && emitted(i) != Rendered("proto", false) && !isev(emitted(i), Rendered) || evarg(emitted(i), Rendered, 0) == "json" || evarg(emitted(i), Rendered, 0) == "deletes")
+//@   ensures json_ietf_selection [C10]: t != nil && enc == "json_ietf" && ntrace() > n0 ==> emitted(n0) == Rendered("json_ietf", true) &&
+//@            forall(i, n0, ntrace(), !isev(emitted(i), Rendered) || evarg(emitted(i), Rendered, 0) == "json_ietf" || evarg(emitted(i), Rendered, 0) == "deletes")
+//@   ensures proto_selection [C10]: t != nil && enc == "proto" && ntrace() > n0 ==> emitted(n0) == Rendered("proto", true) &&
+//@            forall(i, n0, ntrace(), !isev(emitted(i), Rendered) || evarg(emitted(i), Rendered, 0) == "proto" || evarg(emitted(i), Rendered, 0) == "deletes")
+//@   ensures always_only_new_or_updated [C10 C09]: forall(i, n0, ntrace(), isev(emitted(i), Rendered) ==> evarg(emitted(i), Rendered, 1))
+//@   ensures at_most_one_request [C10 C09]: forall(i, n0, ntrace(), isev(emitted(i), GnmiSet) ==> i == ntrace() - 1)
+//@   ensures success_sends_once [C10]: r1 == nil ==> ntrace() > n0 && isev(emitted(ntrace() - 1), GnmiSet)
+//@   internal forwards_all_proto_updates [C10 C09]: t != nil && enc == "proto" && ntrace() > n0 && isev(emitted(ntrace() - 1), GnmiSet) ==>
+//@            evarg(emitted(ntrace() - 1), GnmiSet, 0) == len(callres(ToProtoUpdates, 0, 0))
+//@   internal forwards_all_deletes [C10 C09]: t != nil && (enc == "proto" || enc == "json" || enc == "json_ietf") && ntrace() > n0 && isev(emitted(ntrace() - 1), GnmiSet) ==>
+//@            evarg(emitted(ntrace() - 1), GnmiSet, 1) == len(deletes)
+//@   loop 0 invariant len(setReq.Delete) == $n && fresh(setReq.Delete)
+//@   loop 1 invariant len(setReq.Update) == $n && len(setReq.Delete) == len(deletes)
